@@ -77,11 +77,14 @@ for f in $CONE; do
     if (cd coq && make -q "${f%.v}.vo" >/dev/null 2>&1); then DIS=$((DIS+n)); fi;;
   esac
 done
-# tables the translator could not read, if the property's proofs rest on them
+# what the translator could not read or find, if the property's proofs rest on it
 export VERIF_UNREADABLE=""
-case " $CONE " in *" Gen/AbiTables.v "*)
-  [ -s coq/Gen/unreadable.txt ] && VERIF_UNREADABLE="$(cut -c1-200 coq/Gen/unreadable.txt | head -20)";;
-esac
+if [ -s coq/Gen/unreadable.txt ]; then
+  while IFS=$'\t' read -r gf item why; do
+    case " $(echo $CONE) " in *" Gen/$gf "*) VERIF_UNREADABLE="$VERIF_UNREADABLE$item: $(echo "$why" | cut -c1-160)"$'\n';; esac
+  done < coq/Gen/unreadable.txt
+  VERIF_UNREADABLE="$(echo "$VERIF_UNREADABLE" | head -20)"
+fi
 export VERIF_OBLIGATIONS=$OBL VERIF_DISCHARGED=$DIS
 export VERIF_PROOF_STATUS="$PROOF_STATUS"
 export VERIF_ASSUMPTIONS="$(echo "$ASSUM" | sort | uniq -c | sed 's/^ *//')"
